@@ -38,7 +38,7 @@ func TestCheck(t *testing.T) {
 		"(conc) 2-8 goroutines issuing the operations at the same virtual instants on 1-4 hot keys plus untouched keys while the periodic cleaner ticks at those instants, judged offline from call/return stamps of one atomic counter. "+
 		"(stop) 2-4 goroutines call Stop at the same virtual instant - mostly a tick instant of the periodic cleaner with 100-20000 expired entries waiting, so that the cleaner is inside a long Cleanup pass - after seeded Gosched delays, while other goroutines yield in a storm and race Set/Get/Delete/Cleanup; every returning Stop call takes a goroutine dump at once and is judged on its own (cleaner still inside its loop or inside Cleanup = violation; cleaner in its deferred exit path = not judged), followed by one more Stop after all returned. "+
 		"(resetrace) 6-18 rounds on one cache: the root stores fresh unique values under 1-48 old keys, then behind a spin barrier 1-2 goroutines call Reset (or a manual Cleanup) while 1-3 churners Set fresh keys (map growth), Delete them, overwrite and read old keys, under GOMAXPROCS 2/3/4/8/default; every old key is probed after all returned; judged by the concurrent-mode oracle (a Get starting after a Reset returned must not return a value whose Set returned before that Reset started). "+
-		"TTLs: besides small ones, values from {MaxTTL-1, MaxTTL, MaxTTL+1, 2*MaxTTL, 1<<31, 1<<32, 9223372036, 9223372037, 1<<40, MaxInt64/2, MaxInt64-1, MaxInt64} with MaxTTL 0, small (2,3,5) and large (1<<31, 1<<32, 9223372036, and beyond); directed bigttl scripts probe right after Set, across a manual and a periodic Cleanup, 1ns before / at / after the capped expiry (up to 136 years of virtual time); the reference expiry is Set instant + min(ttl, MaxTTL) s in saturating arithmetic. An effective TTL above 9223372036 s (not representable as a time.Duration; only possible without a cap or with a cap above that) is observed and reported, not judged. "+
+		"TTLs: besides small ones, values from {MaxTTL-1, MaxTTL, MaxTTL+1, 2*MaxTTL, 1<<31, 1<<32, 9223372036, 9223372037, 1<<40, MaxInt64/2, MaxInt64-1, MaxInt64} with MaxTTL 0, small (2,3,5) and large (1<<31, 1<<32, 9223372036, and beyond); directed bigttl scripts probe right after Set, across a manual and a periodic Cleanup, 1ns before / at / after the capped expiry (up to 136 years of virtual time); the reference expiry is Set instant + min(ttl, MaxTTL) s in saturating arithmetic. An effective TTL above 9223372036 s (not representable as a time.Duration; only possible without a cap or with a cap above that) must be clamped, not wrapped: the reference is a hit for as far as the clock can go (right after Set, across manual and periodic Cleanups, +1 s, +68 years); misses there carry the suffix /ttl-beyond-duration. "+
 		"Every mode's key set contains the zero-value key (the empty string) (lock-step: a key like any other, plus directed scripts keeping a live empty-string-keyed entry through manual Cleanups with nothing expired and with other entries expired; conc: an untouched or a hot key; stop: the first untouched live key; resetrace: the first old key). The lock-step modes run on Cache[string], Cache[int] and Cache[*int]; the first Set of a history stores V's zero value, which must come back as a hit. "+
 		"Non-trivial: (lock-step) at least one hit and one miss of a key that had been set; (conc) at least one pair of operations overlapping in logical time on one key, or an operation at a tick instant; (stop) at least two Stop calls were issued at one instant; (resetrace) at least one Set of a fresh key overlapped a Reset/Cleanup in logical time. Distinct = distinct operation list / schedule.")
 	rec.Note("require", []string{
@@ -55,10 +55,10 @@ func TestCheck(t *testing.T) {
 		"stopmode.zero_key.hits_after_stop", "seq.zero_value.hits_string", "seq.zero_value.hits_int", "seq.zero_value.hits_ptr",
 		"seq.huge_ttl_capped.hits_right_after_set", "seq.huge_ttl_capped.hit_1ns_before_capped_expiry", "seq.huge_ttl_capped.miss_exactly_at_capped_expiry",
 		"seq.huge_ttl_capped.hits_after_manual_cleanup", "seq.huge_ttl_capped.hits_after_periodic_cleanup", "seq.large_ttl_uncapped.hits", "conc.huge_ttl.hits",
+		"seq.ttl_beyond_duration.hits_right_after_set", "seq.ttl_beyond_duration.hits_68_years_later", "seq.ttl_beyond_duration.hits_after_manual_cleanup", "seq.ttl_beyond_duration.hits_after_periodic_cleanup",
 		"resetrace.fresh_key_sets_overlapping_reset", "resetrace.old_key_probes_after_reset", "resetrace.get.miss_reset",
 	})
 	rec.Observe("whether Cleanup physically removed an expired entry (memory reclamation) is not observable through Get and is not judged")
-	rec.Observe("effective TTL (after the MaxTTL cap) above 9223372036 s: time.Duration(ttl)*time.Second wraps around in Set on the unchanged tree; what Get then does is counted under seq.ttl_beyond_duration.* and not judged")
 	rec.Observe("Set with ttl <= 0 panics by documentation and is never generated")
 
 	type pl struct {
